@@ -26,6 +26,7 @@ RULE += (' Also: a source whose plain (non-async) __anext__ fails when called.')
 RULE += (' Also: builtin callables handing back awaitables (abs, operator.getitem, deque.popleft) against the same builtin behind a lambda, every failing position; class callables.')
 RULE += (' Also: the siblings of a failed tee child are compared to the end (class-based asynchronous sources).')
 RULE += (' Also: source / callable failures of the kind RuntimeError caused by Stop(Async)Iteration.')
+RULE += (' Also: faults that are proper subclasses of the standard exception types.')
 ASSUMPTIONS = ["Stop(Async)Iteration / IndexError are never injected (their meaning is the language's, not the library's)",
                "closing a faulted source is release, not use"]
 EXHAUSTIVE = {"quick": False, "thorough": False}
